@@ -134,18 +134,21 @@ theorem column_name_inj (pre : String) (k k' : Kind) (i i' : Nat)
 
 /-- What is assumed of the serializer and of the column types:
 wide-column keys and discriminants are encoded prefix-free (a self-delimiting codec: C12),
-key-of-set keys and elements injectively, encoded keys are shorter than 2^64 - 1 bytes. -/
-structure SerOk {κ δ ε : Type} (E : Enc κ δ ε) (kindOf : Nat → Kind) : Prop where
-  pfD : ∀ c, kindOf c = .wide → PrefixFree (E.encD c)
-  pfK : ∀ c, kindOf c = .wide → PrefixFree (E.encK c)
-  injK : ∀ c, kindOf c = .set → ∀ a b, E.encK c a = E.encK c b → a = b
-  injE : ∀ c, kindOf c = .set → ∀ a b, E.encE c a = E.encE c b → a = b
-  lenK : ∀ c k, (E.encK c k).length < 2 ^ 64 - 1
+key-of-set keys and elements injectively, encoded set keys are shorter than 2^64 - 1 bytes.
+(`E.encK c` / `E.encD c` are only ever consulted for a type id `c` used as a wide column,
+`E.encSK c` / `E.encE c` only for one used as a key-of-set column; a type id may be used as both.) -/
+structure SerOk {κ δ ε : Type} (E : Enc κ δ ε) : Prop where
+  pfD : ∀ c, PrefixFree (E.encD c)
+  pfK : ∀ c, PrefixFree (E.encK c)
+  injK : ∀ c, ∀ a b, E.encSK c a = E.encSK c b → a = b
+  injE : ∀ c, ∀ a b, E.encE c a = E.encE c b → a = b
+  lenK : ∀ c k, (E.encSK c k).length < 2 ^ 64 - 1
 
-theorem encOk_of_serOk {κ δ ε : Type} {E : Enc κ δ ε} {kindOf : Nat → Kind} (be : Backend)
-    (hbe : be = rocks ∨ be = fjall) (h : SerOk E kindOf) : EncOk be E kindOf where
+theorem encOk_of_serOk {κ δ ε : Type} {E : Enc κ δ ε} (be : Backend)
+    (hbe : be = rocks ∨ be = fjall) (h : SerOk E) : EncOk be E where
   nameInj := fun k k' i i' e => cfName_inj _ k k' i i' e
   padOk := by rcases hbe with rfl | rfl <;> simp [rocks, fjall]
+  byKind := by rcases hbe with rfl | rfl <;> rfl
   pfD := h.pfD
   pfK := h.pfK
   injK := h.injK
@@ -164,13 +167,37 @@ command as the specification does, where the specification is
   * `commit` applies all operations of the batch in one step, in order (a batch takes effect as a whole),
   * `reopen` keeps the committed content and forgets open batches.
 
-`CmdOk` = every type id is used with one column kind, and (Fjall) composite keys are within the
-backend's 65535-byte key limit (for RocksDB this part is vacuous). -/
+A "column" of the specification is a pair (column kind, stable type id): the command sequence MAY use
+one type id both as a wide column and as a key-of-set column, in any order and with any kind touching
+it first in a session (before or after a reopen) — point reads / writes per (kind, type id, value
+type, key) and member scans per (type id, key) do not interfere.  (Until the repair of finding F19
+the backends cached the family by the type id alone and this was false: `f19_historical_*` below.)
+
+`CmdOk` = (Fjall) composite keys are within the backend's 65535-byte key limit; for RocksDB it is
+vacuous. -/
 theorem kv_refines_spec {κ δ ε : Type} [DecidableEq κ] [DecidableEq δ] [DecidableEq ε]
-    (be : Backend) (hbe : be = rocks ∨ be = fjall) (E : Enc κ δ ε) (kindOf : Nat → Kind)
-    (hS : SerOk E kindOf) (cmds : List (Cmd κ δ ε)) (hok : ∀ c ∈ cmds, CmdOk be E kindOf c) :
+    (be : Backend) (hbe : be = rocks ∨ be = fjall) (E : Enc κ δ ε)
+    (hS : SerOk E) (cmds : List (Cmd κ δ ε)) (hok : ∀ c ∈ cmds, CmdOk be E c) :
     AllMatch E cmds (mrun be E {} cmds) (srun Spec.init cmds) :=
-  run_sim be E kindOf (encOk_of_serOk be hbe hS) cmds {} Spec.init (rel_init be E kindOf) hok
+  run_sim be E (encOk_of_serOk be hbe hS) cmds {} Spec.init (rel_init be E) hok
+
+/-- for RocksDB `CmdOk` holds of every command: the refinement is unconditional in the commands -/
+theorem kv_refines_spec_rocks {κ δ ε : Type} [DecidableEq κ] [DecidableEq δ] [DecidableEq ε]
+    (E : Enc κ δ ε) (hS : SerOk E) (cmds : List (Cmd κ δ ε)) :
+    AllMatch E cmds (mrun rocks E {} cmds) (srun Spec.init cmds) :=
+  kv_refines_spec rocks (Or.inl rfl) E hS cmds (fun c _ => by
+    cases c <;> simp [CmdOk, OpOk, opFits, keyOver, rocks])
+
+/-- the column family handed out for (type id, kind) is the one named after exactly this pair, whatever
+the session did before (cache hit or miss): the two kinds of one type id never share a family -/
+theorem resolve_own_family (be : Backend) (hbe : be = rocks ∨ be = fjall) (db : Db)
+    (hc : CacheInv be db.cache) (id : Nat) (kind : Kind) :
+    (resolve be db id kind).1 = cfName be.namePrefix kind id ∧
+      CacheInv be (resolve be db id kind).2.cache := by
+  have hbk : be.cacheByKind = true := by rcases hbe with rfl | rfl <;> rfl
+  obtain ⟨db', h, _, _, _, hc'⟩ := resolve_eq be db id kind hbk hc
+  rw [h]
+  exact ⟨rfl, hc'⟩
 
 /-- "uncommitted batches are invisible", stated directly on the model: a point read does not depend
 on the open batches and serialization buffers. -/
@@ -179,14 +206,14 @@ theorem get_ignores_open_batches (be : Backend) (db : Db) (b : List (Nat × List
     (get be { db with batches := b, sbufs := s } id pl encD encK).1 =
       (get be db id pl encD encK).1 := by
   unfold get resolve
-  cases aget db.cache id <;> (simp only []; split <;> rfl)
+  cases aget db.cache (cacheKey be id .wide) <;> (simp only []; split <;> rfl)
 
 /-- … and neither does a member scan. -/
 theorem scan_ignores_open_batches (be : Backend) (db : Db) (b : List (Nat × List WOp))
     (s : List (Nat × List SOp)) (id : Nat) (encK : Bytes) :
     (scan be { db with batches := b, sbufs := s } id encK).1 = (scan be db id encK).1 := by
   unfold scan resolve
-  cases aget db.cache id <;> (simp only []; split <;> rfl)
+  cases aget db.cache (cacheKey be id .set) <;> (simp only []; split <;> rfl)
 
 /-- writing into a batch, or dropping it, leaves the store content untouched up to the lazy creation
 of an (empty) column family: every column reads the same -/
@@ -201,7 +228,7 @@ theorem batchWrite_keeps_content (be : Backend) (db : Db) (h id : Nat) (kind : K
     have hres : ∀ n, (resolve be db id kind).2.disk.col n = db.disk.col n := by
       intro n
       unfold resolve
-      cases aget db.cache id with
+      cases aget db.cache (cacheKey be id kind) with
       | some _ => rfl
       | none =>
         simp only
@@ -247,41 +274,130 @@ example : allFF [1, 0xFF] = false ∧ leB [1, 0xFF] [1, 0xFF, 0] = true ∧
     ltB [1, 0xFF, 0] (prefixUpperBound [1, 0xFF]) = true ∧ ltB [2] (prefixUpperBound [1, 0xFF]) = false := by
   decide
 
-/-- a serializer / column assignment satisfying `SerOk`, and a command sequence satisfying `CmdOk`:
-even type ids are wide columns, odd ones key-of-set columns -/
+/-- a serializer satisfying `SerOk`.  Key-of-set keys use a code that is injective but NOT prefix-free
+(`false ↦ []`, `true ↦ [1]`): the length field of the set prefix delimits it. -/
+def encSKey (b : Bool) : Bytes := if b then [1] else []
+
 def exEnc : Enc Bool Bool Bool :=
   { plc := fun c => if c % 4 = 0 then .prefixed else .suffixed
-    encK := fun _ => encBool, encD := fun _ => encBool, encE := fun _ => encBool }
-
-def exKind (c : Nat) : Kind := if c % 2 = 0 then .wide else .set
+    encK := fun _ => encBool, encSK := fun _ => encSKey, encD := fun _ => encBool,
+    encE := fun _ => encBool }
 
 theorem encBool_pf : PrefixFree encBool := by
   intro a b h
   cases a <;> cases b <;> simp [encBool] at h <;> rfl
 
-example : SerOk exEnc exKind where
-  pfD := fun _ _ => encBool_pf
-  pfK := fun _ _ => encBool_pf
-  injK := fun _ _ => encBool_pf.injective
-  injE := fun _ _ => encBool_pf.injective
-  lenK := fun _ k => by cases k <;> simp [exEnc, encBool]
+theorem exSerOk : SerOk exEnc where
+  pfD := fun _ => encBool_pf
+  pfK := fun _ => encBool_pf
+  injK := fun _ a b => by cases a <;> cases b <;> simp [exEnc, encSKey]
+  injE := fun _ => encBool_pf.injective
+  lenK := fun _ k => by cases k <;> simp [exEnc, encSKey]
 
+/-- a command sequence with a DUAL-KIND type id: type id 0 is used as a wide column AND as a key-of-set
+column inside one batch; in the first session the wide kind touches it first, after the reopen the
+key-of-set kind does -/
 def exCmds : List (Cmd Bool Bool Bool) :=
-  [.bnew 1, .bop 1 (.put 0 true false [9]), .bop 1 (.ins 1 true false), .get 0 true false,
-   .commit 1, .get 0 true false, .scan 1 true, .reopen, .scan 1 true]
+  [.bnew 1, .bop 1 (.put 0 true false [9]), .bop 1 (.ins 0 true false), .get 0 true false,
+   .commit 1, .get 0 true false, .scan 0 true, .reopen, .scan 0 true, .get 0 true false]
 
-example : ∀ c ∈ exCmds, CmdOk rocks exEnc exKind c := by
+theorem exCmds_ok (be : Backend) (hbe : be = rocks ∨ be = fjall) : ∀ c ∈ exCmds, CmdOk be exEnc c := by
   intro c hc
   simp only [exCmds, List.mem_cons, List.mem_nil_iff, or_false] at hc
-  rcases hc with rfl | rfl | rfl | rfl | rfl | rfl | rfl | rfl | rfl <;>
-    simp [CmdOk, OpOk, opKindOk, opFits, keyOver, rocks, exKind]
+  rcases hbe with rfl | rfl <;>
+  rcases hc with rfl | rfl | rfl | rfl | rfl | rfl | rfl | rfl | rfl | rfl <;>
+    simp [CmdOk, OpOk, opFits, keyOver, rocks, fjall] <;> decide
 
-/-- the specification of that sequence: invisible before the commit, visible after it and after reopen -/
-example : ((srun (Spec.init : Spec Bool Bool Bool) exCmds).map fun
-      | .val v => some v
-      | _ => none) =
-    [none, none, none, some none, none, some (some [9]), none, none, none] := by
+/-- what a client sees of a specification observation (members listed over `[false, true]`) -/
+def seeS : SObs Bool → Option (Option Bytes) × Option (List Bool)
+  | .val v => (some v, none)
+  | .members m => (none, some ([false, true].filter m))
+  | _ => (none, none)
+
+/-- … and of a model observation (member elements in encoded form) -/
+def seeM : MObs → Option (Option Bytes) × Option (List (Option Bytes))
+  | .val (some v) => (some v, none)
+  | .members (some l) => (none, some l)
+  | _ => (none, none)
+
+/-- the specification of that sequence: invisible before the commit; after it the value under the wide
+column 0 and the member `false` under the key-of-set column 0, also after the reopen -/
+example : (srun (Spec.init : Spec Bool Bool Bool) exCmds).map seeS =
+    [(none, none), (none, none), (none, none), (some none, none), (none, none),
+     (some (some [9]), none), (none, some [false]), (none, none), (none, some [false]),
+     (some (some [9]), none)] := by
   decide
+
+/-- … and the byte-level model of both backends (cache keyed by (type id, kind)) answers exactly that -/
+theorem dual_kind_model_answers :
+    (mrun rocks exEnc {} exCmds).map seeM =
+      [(none, none), (none, none), (none, none), (some none, none), (none, none),
+       (some (some [9]), none), (none, some [some [0]]), (none, none), (none, some [some [0]]),
+       (some (some [9]), none)] ∧
+    (mrun fjall exEnc {} exCmds).map seeM = (mrun rocks exEnc {} exCmds).map seeM := by
+  constructor <;> decide
+
+/-- `kv_refines_spec` applies to the dual-kind sequence, on both backends -/
+example : AllMatch exEnc exCmds (mrun rocks exEnc {} exCmds) (srun Spec.init exCmds) ∧
+    AllMatch exEnc exCmds (mrun fjall exEnc {} exCmds) (srun Spec.init exCmds) :=
+  ⟨kv_refines_spec rocks (Or.inl rfl) exEnc exSerOk exCmds (exCmds_ok _ (Or.inl rfl)),
+   kv_refines_spec fjall (Or.inr rfl) exEnc exSerOk exCmds (exCmds_ok _ (Or.inr rfl))⟩
+
+/-! ### HISTORICAL: the cache keyed by the type id alone (finding F19, before its repair) -/
+
+/-- a decidable consequence of `AllMatch`: every point read of the model returns the specification's value -/
+def getsAgree {ε : Type} : List MObs → List (SObs ε) → Bool
+  | [], _ => true
+  | _ :: _, [] => true
+  | m :: ms, s :: ss =>
+    (match m, s with
+      | .val (some v), .val v' => decide (v = v')
+      | .val none, .val _ => false
+      | _, _ => true) && getsAgree ms ss
+
+theorem getsAgree_of_allMatch {κ δ ε : Type} (E : Enc κ δ ε) :
+    ∀ (cmds : List (Cmd κ δ ε)) (ms : List MObs) (ss : List (SObs ε)),
+      AllMatch E cmds ms ss → getsAgree ms ss = true := by
+  intro cmds
+  induction cmds with
+  | nil => intro ms ss h; cases ms <;> cases ss <;> simp_all [AllMatch, getsAgree]
+  | cons c cs ih =>
+    intro ms ss h
+    cases ms with
+    | nil => rfl
+    | cons m ms =>
+      cases ss with
+      | nil => rfl
+      | cons s ss =>
+        obtain ⟨h1, h2⟩ := h
+        simp only [getsAgree, ih ms ss h2, Bool.and_true]
+        split
+        · simpa [ObsMatch] using h1
+        · simp [ObsMatch] at h1
+        · rfl
+
+/-- With the historical cache the SAME dual-kind sequence goes wrong on both backends: the member is
+written into the wide column's family (the wide kind touched type id 0 first); after the reopen the scan
+touches it first, binds the key-of-set family, and finds NO member; the point read that follows is then
+served from the key-of-set family and finds NO value. -/
+theorem f19_historical_answers :
+    (mrun rocksF19 exEnc {} exCmds).map seeM =
+      [(none, none), (none, none), (none, none), (some none, none), (none, none),
+       (some (some [9]), none), (none, some [some [0]]), (none, none), (none, some []),
+       (some none, none)] ∧
+    (mrun fjallF19 exEnc {} exCmds).map seeM = (mrun rocksF19 exEnc {} exCmds).map seeM := by
+  constructor <;> decide
+
+/-- … so the historical model does NOT refine the specification on a dual-kind sequence (which is why
+`CmdOk` used to demand one kind per type id) -/
+theorem f19_historical_violates_spec :
+    ¬ AllMatch exEnc exCmds (mrun rocksF19 exEnc {} exCmds) (srun Spec.init exCmds) ∧
+    ¬ AllMatch exEnc exCmds (mrun fjallF19 exEnc {} exCmds) (srun Spec.init exCmds) := by
+  constructor <;>
+  · intro h
+    have := getsAgree_of_allMatch _ _ _ _ h
+    revert this
+    decide
 
 end examples
 
